@@ -22,7 +22,7 @@ import (
 // responses the application collects in its own time.
 
 type c09Spec struct {
-	Kind string `json:"kind"` // grid | opt | chain | loop | slow | held | replace | fan
+	Kind string `json:"kind"` // grid | opt | chain (also the deep chains of c09_deep_test.go) | loop | slow | held | replace | fan | wire
 
 	// grid / opt
 	Recv string `json:"recv,omitempty"` // rep xrep respondent xrespondent xpair1 pair1 xstar star
@@ -34,7 +34,7 @@ type c09Spec struct {
 	RawSrv  bool   `json:"rawsrv,omitempty"`  // server is the raw socket type
 	Mode    string `json:"mode,omitempty"`    // default (every TTL left at 8) | set (devices 255, server TTL as given)
 	Clients int    `json:"clients,omitempty"` // concurrent clients
-	Tr      string `json:"tr,omitempty"`      // inproc | tcp | mix
+	Tr      string `json:"tr,omitempty"`      // inproc | ipc | tcp | tls+tcp | ws | wss | mix | stream | any; wire: the transport of the one connection
 	Rounds  int    `json:"rounds,omitempty"`
 	Procs   int    `json:"procs,omitempty"`
 
@@ -97,6 +97,8 @@ func TestC09(t *testing.T) {
 	cases = append(cases, c09HeldCases(r, rnd)...)
 	cases = append(cases, c09ReplaceCases(r, rnd)...)
 	cases = append(cases, c09FanCases(r, rnd)...)
+	cases = append(cases, c09DeepCases(r, rnd)...)
+	cases = append(cases, c09WireCases(r, rnd)...)
 
 	for i := 0; i < r.Pick(3, 30); i++ {
 		cases = append(cases, mon.CaseSpec{Name: "slow-receiver", Spec: c09Spec{Kind: "slow", TTL: i % 3}})
@@ -127,6 +129,8 @@ func TestC09(t *testing.T) {
 			c09Replace(c, sp)
 		case "fan":
 			c09Fan(c, sp)
+		case "wire":
+			c09WireCase(c, sp)
 		default:
 			panic(fmt.Sprintf("c09: kind %q", sp.Kind))
 		}
